@@ -200,7 +200,10 @@ impl Agg {
 }
 
 /// Runs `n` scenarios with seeds derived from `base`, on `threads` OS threads.
-pub fn drive<F>(engine: &str, base: u64, n: u64, threads: usize, f: F) -> Agg
+/// `confirm`: the engine is a deterministic function of the scenario seed (paused clock, seeded
+/// scheduler), so a violation must show up again when the same scenario is run again. One that
+/// does not reproduce in two further runs is kept as an *inconclusive* scenario, never as a verdict.
+pub fn drive<F>(engine: &str, base: u64, n: u64, threads: usize, confirm: bool, f: F) -> Agg
 where
     F: Fn(u64) -> Report + Sync,
 {
@@ -227,7 +230,31 @@ where
                         r
                     }
                 };
+                let mut r = r;
+                let mut unreproduced = 0u64;
+                if confirm && !r.violations.is_empty() {
+                    let mut seen: HashSet<String> = HashSet::new();
+                    for _ in 0..2 {
+                        if let Ok(again) = std::panic::catch_unwind(std::panic::AssertUnwindSafe(|| f(sseed))) {
+                            for v in &again.violations {
+                                seen.insert(v.signature.clone());
+                            }
+                        }
+                    }
+                    let before = r.violations.len();
+                    let lost: Vec<String> = r.violations.iter().filter(|v| !seen.contains(&v.signature)).map(|v| format!("[{}] {}", v.signature, v.message)).collect();
+                    r.violations.retain(|v| seen.contains(&v.signature));
+                    if r.violations.len() < before {
+                        unreproduced = (before - r.violations.len()) as u64;
+                        if r.violations.is_empty() {
+                            r.inconclusive = Some(format!("a violation did not reproduce in two further runs of the same scenario: {}", lost.first().cloned().unwrap_or_default()));
+                        }
+                    }
+                }
                 let mut a = agg.lock().unwrap_or_else(|e| e.into_inner());
+                if unreproduced > 0 {
+                    *a.counters.entry("unreproduced_violations".to_string()).or_insert(0) += unreproduced;
+                }
                 let want = a.samples.len() < 3;
                 a.absorb(sseed, r, want);
                 if a.violations.len() >= 200 {
